@@ -3,15 +3,123 @@
 From Coq Require Import NArith List Bool Lia Arith.
 From Coq.Strings Require Import Byte.
 From PyRtcm Require Import Base.Bytes Model.Types Model.Reader Model.Socket Spec.ChunkGrammar
-  Proofs.SocketProofs Proofs.ChunkProofs.
+  Spec.StreamLaw Proofs.SocketProofs Proofs.ChunkProofs.
 Import ListNotations.
 Local Open Scope nat_scope.
+
+(* ================= any encoding: the content function of a wrapper state ================= *)
+Section AnyEncoding.
+Variable chunked : bool.
+Variable dz : bytes -> bytes.
+
+Notation recv := (recv chunked dz).
+Notation fill := (fill chunked dz).
+Notation sock_read := (sock_read chunked dz).
+Notation readline_loop := (readline_loop chunked dz).
+Notation sock_readline := (sock_readline chunked dz).
+
+(* what the remaining events will add to the buffer, given the pending partial chunk *)
+Fixpoint future (p:bytes) (e:list recv_ev) : bytes :=
+  match e with
+  | [] => []
+  | ev :: r =>
+      let s1 := snd (recv {| buf := []; partial := p; evs := [ev]; unm := false |}) in
+      buf s1 ++ future (partial s1) r
+  end.
+
+Definition cpending (s:sock) : bytes := buf s ++ future (partial s) (evs s).
+
+Lemma recv_cpending s ok s' : recv s = (ok, s') -> cpending s = cpending s' /\ evs s' = tl (evs s).
+Proof.
+  unfold cpending. intro H. unfold Socket.recv in H.
+  destruct (evs s) as [|ev r] eqn:Ev.
+  - inversion H; subst. rewrite Ev. auto.
+  - cbn [future]. unfold Socket.recv. cbn [evs partial buf unm].
+    destruct ev as [[|d0 d1]|].
+    + inversion H; subst. cbn. auto.
+    + destruct chunked.
+      * destruct (dechunk dz (partial s ++ d0 :: d1)) eqn:D; inversion H; subst; cbn; split; auto.
+        now rewrite app_assoc.
+      * inversion H; subst. cbn. split; auto. now rewrite <- app_assoc.
+    + inversion H; subst. cbn. auto.
+Qed.
+
+Lemma fill_cpending fuel n s ok s' : fill fuel n s = (ok, s') ->
+  cpending s = cpending s' /\ (ok = true -> n <= length (buf s')).
+Proof.
+  revert s ok s'. induction fuel as [|f IH]; intros s ok s' H; simpl in H.
+  - destruct (Nat.leb n (length (buf s))) eqn:L; inversion H; subst; split; auto; try discriminate.
+    intros _. now apply Nat.leb_le.
+  - destruct (Nat.leb n (length (buf s))) eqn:L.
+    + inversion H; subst. split; auto. intros _. now apply Nat.leb_le.
+    + destruct (recv s) as [ok1 s1] eqn:R. apply recv_cpending in R. destruct R as (P & _).
+      destruct ok1.
+      * apply IH in H. destruct H as (P' & Hn). split; [congruence|auto].
+      * inversion H; subst. split; auto. discriminate.
+Qed.
+
+Theorem sock_read_cpending n s o s' : sock_read n s = (o, s') ->
+  cpending s = o ++ cpending s' /\ (length o = n \/ o = []).
+Proof.
+  unfold Socket.sock_read. destruct (fill (S (length (evs s))) n s) as [ok s1] eqn:F.
+  apply fill_cpending in F. destruct F as (P & Hn).
+  destruct ok; intro H; inversion H; subst; clear H.
+  - split.
+    + rewrite P. unfold cpending. simpl. now rewrite app_assoc, firstn_skipn.
+    + left. rewrite firstn_length. pose proof (Hn eq_refl). lia.
+  - auto.
+Qed.
+
+Lemma readline_loop_cpending fuel line s l s' : readline_loop fuel line s = (l, s') ->
+  exists t, l = line ++ t /\ cpending s = t ++ cpending s'.
+Proof.
+  revert line s l s'. induction fuel as [|f IH]; intros line s l s' H; simpl in H.
+  - inversion H; subst. exists []. now rewrite app_nil_r.
+  - destruct (sock_read 1 s) as [d s1] eqn:R. apply sock_read_cpending in R. destruct R as (P & L).
+    destruct d as [|b [|b' d']].
+    + inversion H; subst. exists []. now rewrite app_nil_r.
+    + destruct (ends_crlf (line ++ [b])).
+      * inversion H; subst. exists [b]. auto.
+      * apply IH in H. destruct H as (t & -> & P'). exists (b :: t). split.
+        -- now rewrite <- app_assoc.
+        -- rewrite P, P'. reflexivity.
+    + exfalso. destruct L as [L|L]; simpl in L; [lia|discriminate].
+Qed.
+
+Theorem sock_readline_cpending s l s' : sock_readline s = (l, s') -> cpending s = l ++ cpending s'.
+Proof.
+  unfold Socket.sock_readline. intro H. apply readline_loop_cpending in H.
+  destruct H as (t & -> & P). exact P.
+Qed.
+
+(* the wrapper is a lawful stream over its content, for every encoding *)
+Theorem sock_stream_law_any : stream_law (sock_ops chunked dz) cpending.
+Proof.
+  split.
+  - intros n s d s' H. simpl in H. apply sock_read_cpending in H. destruct H as (P & [L|L]); split; auto.
+    + lia.
+    + subst d. simpl. lia.
+  - intros s d s' H. simpl in H. now apply sock_readline_cpending in H.
+Qed.
+
+End AnyEncoding.
+
+(* without chunking the content is the data still to come *)
+Lemma future_unchunked dz p e : future false dz p e = datas e.
+Proof.
+  revert p. induction e as [|ev r IH]; intro p; auto.
+  cbn [future]. unfold recv. cbn [evs partial buf unm].
+  destruct ev as [[|d0 d1]|]; cbn; rewrite IH; auto.
+Qed.
+
+Lemma cpending_unchunked dz s : cpending false dz s = pending s.
+Proof. unfold cpending, pending. now rewrite future_unchunked. Qed.
 
 Section C12R.
 Variable dz : bytes -> bytes.
 Variable chunks : list chunk.
 Variable last : option bytes.
-Hypothesis Hwf : wf_chunked chunks last.
+Context (Hwf : wf_chunked chunks last).
 
 Notation recv := (recv true dz).
 Notation fill := (fill true dz).
@@ -233,6 +341,28 @@ Proof.
   destruct (recv_J _ _ _ _ (J_start e E) R) as (HJ & Un & _). simpl. auto.
 Qed.
 
+(* the content of a chunked wrapper fed a well-formed chunked stream is the decoded stream *)
+Lemma J_content out s : J out s -> out ++ cpending true dz s = decoded dz chunks.
+Proof.
+  remember (length (evs s)) as k eqn:Ek. revert out s Ek.
+  induction k as [|k IH]; intros out s Ek HJ.
+  - destruct (evs s) eqn:Ev; [|discriminate]. unfold cpending. rewrite Ev. simpl. rewrite app_nil_r.
+    now apply J_done.
+  - destruct (recv s) as [ok s1] eqn:R.
+    destruct (recv_J _ _ _ _ HJ R) as (HJ1 & _).
+    apply recv_cpending in R. destruct R as (P & Et). rewrite P. apply IH; auto.
+    rewrite Et. destruct (evs s); simpl in *; [discriminate|lia].
+Qed.
+
+Theorem C12_content e : datas e = render chunks last ->
+  cpending true dz (sock_init true dz e) = decoded dz chunks /\
+  cpending true dz (start e) = decoded dz chunks.
+Proof.
+  intro E. split.
+  - destruct (J_sock_init e E) as (HJ & _). apply (J_content [] _ HJ).
+  - apply (J_content [] _ (J_start e E)).
+Qed.
+
 (* ================= C12 through read() ================= *)
 
 (* Any event list carrying the chunked stream (any segmentation, timeouts and empty packets anywhere),
@@ -310,6 +440,8 @@ Qed.
 
 End C12R.
 
+Print Assumptions sock_stream_law_any.
+Print Assumptions C12_content.
 Print Assumptions sock_read_J.
 Print Assumptions sock_readline_J.
 Print Assumptions C12_reads.
